@@ -207,6 +207,7 @@ Ref(t, t0, m, arr) ==
     [] t.op = "never" -> <<>>
     [] t.op = "error" -> <<TEv(t0, "e", t.a)>>
     [] t.op = "range" -> DoneAt([i \in 1..t.b |-> TEv(t0, "n", t.a + i - 1)], t0)
+    [] t.op = "from_iter_endless" -> Append([i \in 1..RepeatLen |-> TEv(t0, "n", t.a)], TEv(t0, "div", 0))
     [] t.op = "repeat" -> Append([i \in 1..RepeatLen |-> TEv(t0, "n", t.a)], TEv(t0, "div", 0))   \* endless: only meaningful under a terminating operator
     [] t.op \in {"merge", "zip", "combine_latest", "amb", "sequence_equal"} ->
          LET xs == [i \in 1..Len(t.in) |-> Ref(t.in[i], t0, m, arr)]
@@ -229,6 +230,19 @@ Ref(t, t0, m, arr) ==
               IN Items(x) \o Ref(nxt, e.t, 1, arr)
     [] t.op = "flat_map" ->
          IF t.f = "obs" THEN Ref(t.in[1].in[1], t0, m, arr)          \* flattening the windows / groups gives the source back
+         ELSE IF t.f = "obsmat" THEN
+           \* flat_map(w => w.materialize()) over window_with_count(a): the source's items, a Complete notification (2000) right
+           \* after every a-th item (the window is full), and at the source's terminal the open window's own terminal
+           \* notification (Complete, or Error = 1000 + payload) - then the source's terminal
+           LET x == Ref(t.in[1].in[1], t0, m, arr)
+               it == Items(x)
+               a == t.in[1].a
+               RECURSIVE WinSeq(_)
+               WinSeq(i) == IF i > Len(it) THEN <<>> ELSE <<it[i]>> \o (IF i % a = 0 THEN <<TEv(it[i].t, "n", 2000)>> ELSE <<>>) \o WinSeq(i + 1)
+               open == Len(it) % a # 0
+           IN IF Completed(x) THEN WinSeq(1) \o (IF open THEN <<TEv(TermOf(x).t, "n", 2000)>> ELSE <<>>) \o <<TermOf(x)>>
+              ELSE IF Failed(x) THEN WinSeq(1) \o (IF open THEN <<TEv(TermOf(x).t, "n", 1000 + TermOf(x).v)>> ELSE <<>>) \o <<TermOf(x)>>
+              ELSE WinSeq(1)
          ELSE LET x == Ref(t.in[1], t0, m, arr)
                   inners == RefInners(t.f, Items(x), 1, arr, <<>>)
                   \* the outer source takes part in the merge with its terminal only
@@ -245,7 +259,8 @@ LeafIds(t) == IF t.op \in {"probe", "cold"} THEN <<t.a>> ELSE IF t.in = <<>> THE
 Resubscriber(t) == t.op \in {"retry", "retry_when"} \/ (t.op = "flat_map" /\ t.f \in {"probe2", "probe2map"}) \/ (t.op = "on_error_resume_next" /\ t.f = "probe2")
 UsesProbe2(t) == (t.op = "flat_map" /\ t.f \in {"probe2", "probe2map"}) \/ (t.op = "on_error_resume_next" /\ t.f = "probe2")
 \* (switch_on_next is specific to this crate and no listed property defines it: it is exercised by C01/C05/C06/C07/C17 only)
-NoSubj(t) == t.op \notin {"subject", "rawsubject", "conn", "ready_set_go", "switch_on_next"} /\ \A i \in 1..Len(t.in) : NoSubj(t.in[i])
+NoSubj(t) == t.op \notin {"subject", "rawsubject", "conn", "ready_set_go", "switch_on_next"} /\ ~(t.op = "flat_map" /\ t.f = "unsub_probe2")
+             /\ (t.op = "flat_map" /\ t.f = "obsmat" => t.in[1].op = "window_with_count") /\ \A i \in 1..Len(t.in) : NoSubj(t.in[i])
 ResubDepth(t) == LET d == IF t.in = <<>> THEN 0 ELSE LET S == { ResubDepth(t.in[i]) : i \in 1..Len(t.in) } IN CHOOSE x \in S : \A y \in S : y <= x
                  IN d + (IF Resubscriber(t) THEN 1 ELSE 0)
 AnyProbe2(t) == UsesProbe2(t) \/ \E i \in 1..Len(t.in) : AnyProbe2(t.in[i])
